@@ -309,7 +309,7 @@ fn check_writer(c: &WCase, info: &mut Info) -> Result<(), String> {
 }
 
 pub fn run(ctx: &mut Ctx) {
-    ctx.rule("uniform: every seed archive x uniform underlying chunk size 1..56 and {100,127,128,129,200,255,1000,4095} x {direct, BufReader caps 1,7,64,4096} x caller-buffer schedules; cuts: ONE short read at EVERY byte position of every seed archive (exhaustive); random: generated archives x random schedules; all through the seekable and the streaming reader, compared with an unchunked Cursor read (metadata, bytes, error-ness; zero-length reads return 0; reads after EOF return 0). writer: generated programs (all entry kinds incl. extra data, aligned, ZipCrypto, append) into a sink accepting short writes by schedule: bytes identical to the unchunked run; caller-side write splitting (pieces delivered by write_all, by write() loops honouring the returned counts, or by write_vectored over groups of pieces): decoded entries identical. Non-trivial = at least one short transfer happened.");
+    ctx.rule("uniform: every seed archive x uniform underlying chunk size 1..56 and {100,127,128,129,200,255,1000,4095} x {direct, BufReader caps 1,7,64,4096} x caller-buffer schedules; cuts: ONE short read at EVERY byte position of every seed archive (exhaustive); random: generated archives x random schedules; all through the seekable and the streaming reader, compared with an unchunked Cursor read (metadata, bytes, error-ness; zero-length reads return 0; reads after EOF return 0). writer: generated programs (all entry kinds incl. extra data, aligned, ZipCrypto, append) into a sink accepting short writes by schedule: bytes identical to the unchunked run; caller-side write splitting (pieces delivered by write_all, by write() loops honouring the returned counts, or by write_vectored over groups of pieces): decoded entries identical. writer_counts: 65536-entry (thorough 65535..70000) programs, whose ZIP64 end records are only written at that size, into short-writing sinks. Non-trivial = at least one short transfer happened.");
     let seeds = seeds::small_seeds();
     let callers: [&[usize]; 11] = [&[4096], &[1], &[0, 2, 0], &[3, 7], &[64, 0, 1], &[65536], &[7, 4096], &[1, 200], &[15, 129, 3], &[5, 128, 0, 500], &[33, 127, 129]];
     let brs = [0usize, 1, 7, 64, 4096];
@@ -422,4 +422,18 @@ pub fn run(ctx: &mut Ctx) {
             Verdict::from_result(catch(|| check_writer(c, info)).unwrap_or_else(|p| Err(format!("PANIC: {p}"))))
         },
     );
+    // the ZIP64 end records (only written beyond 65535 entries) through short-writing sinks
+    #[derive(Clone, Debug, Serialize, Deserialize, Hash)]
+    struct WCount {
+        entries: u32,
+        sink_schedule: Vec<usize>,
+    }
+    let scheds: Vec<Vec<usize>> = vec![vec![1], vec![7], vec![43, 1], vec![100000, 3]];
+    let counts: Vec<u32> = ctx.q(vec![65536], vec![65535, 65536, 65537, 70000]);
+    ctx.enumerate::<WCount>("writer_counts", (scheds.len() * counts.len()) as u64, &|i| WCount { entries: counts[i as usize / scheds.len()], sink_schedule: scheds[i as usize % scheds.len()].clone() }, &|c: &WCount, info: &mut Info| {
+        info.label(if c.entries > 65535 { "zip64-end-records" } else { "classic-end-record" });
+        let ops: Vec<Op> = (0..c.entries).map(|i| Op::File { name: format!("n{i}"), opts: gen::Opts::plain(gen::Method::Stored), chunks: if i % 9973 == 1 { vec![crate::refzip::Content::Bytes(b"payload".to_vec())] } else { vec![] } }).collect();
+        let w = WCase { program: Program { ops }, sink_schedule: c.sink_schedule.clone(), split: 0, append: None, how: 0 };
+        Verdict::from_result(catch(|| check_writer(&w, info)).unwrap_or_else(|p| Err(format!("PANIC: {p}"))))
+    });
 }
